@@ -546,56 +546,109 @@ class MTVRPAdapter(RoutingAdapter):
         M = S["T"] if use_speed else S["D"]
         return S["hi"][0] is None or all(S["lo"][j] + M[j][0] + S["sv"][j] <= S["hi"][0] for j in range(len(S["lo"])))
 
+    def classify(self, td_in, acts, tag, msg=""):
+        """THE classifier (single rows and rows of batches): the recorded mechanism that explains why the solution [acts] of
+        the instance [td_in] got the concrete tag, from an exact-rational replay of the problem definition and of the
+        checker's clock; None when no recorded mechanism explains it.  For tag 14 (feasible, rejected) the caller must pass
+        a row that the checker rejects ALONE.  Order: open-route depot deadline (open finding) before the speed mechanisms."""
+        S = self.spec_data(td_in)
+        routes = self.split_routes(acts)
+        # on float data (generator stream) a constraint counts as violated only beyond the slack the harness grants
+        slack = 0 if self.is_exact(td_in) else 3 * Fraction(1e-5)
+        fl = [self.route_faults(S, r, slack) for r in routes]
+        faults = sorted({x for f, _ in fl for x in f})
+        tight = any(t for _, t in fl)
+        speed = float(td_in["speed"][0, 0])
+        has_tw = any(h is not None for h in S["hi"])
+        in_range = all(0 <= a < len(S["dl"]) for a in acts)
+        if tag == 16 and has_tw and tight:
+            return "mtvrp/TW: mask-hides-visit-arriving-exactly-at-deadline"            # fixed by /repo 9b8ead8
+        if tag == 14 and in_range and has_tw:
+            if S["open"] and not self.clock_ok(S, acts, True):
+                return "mtvrp/O+TW: checker-enforces-depot-deadline-on-open-route"       # open
+            if speed != 1.0 and self.clock_ok(S, acts, True):
+                by_assert = self.data_assert_ok(S, True) and not self.data_assert_ok(S, False)
+                by_clock = not self.clock_ok(S, acts, False)
+                if by_assert and by_clock and msg:
+                    # both old behaviours would reject: the checker's own message says which assert fired
+                    by_assert, by_clock = "get back to depot in time" in msg, "start service before deadline" in msg
+                if by_assert:
+                    return "mtvrp/TW,speed!=1: checker-data-assert-ignores-speed"        # fixed by /repo 004c254
+                if by_clock:
+                    return "mtvrp/TW,speed!=1: checker-ignores-speed"                    # fixed by /repo ea27328
+        if tag == 15 and in_range:
+            unclosed = bool(acts) and acts[-1] != 0
+            slow_clock_ok = speed != 1.0 and self.clock_ok(S, acts, False)
+            mech, unexplained = set(), not faults
+            for k, (fr_, _) in enumerate(fl):
+                for x in fr_:
+                    if x == "precedence":
+                        mech.add("prec")
+                    elif x in ("limit", "depot-window") and unclosed and k == len(fl) - 1:
+                        mech.add("ret")
+                    elif x in ("window", "depot-window") and slow_clock_ok:
+                        mech.add("speed")
+                    else:
+                        unexplained = True
+            if not unexplained:
+                if "prec" in mech:
+                    return "mtvrp/B: checker-misses-linehaul-after-backhaul"             # open
+                if "ret" in mech:
+                    return "mtvrp/L|TW: checker-skips-final-return-leg"                  # open
+                if "speed" in mech:
+                    return "mtvrp/TW,speed!=1: checker-ignores-speed"                    # fixed by /repo ea27328
+        return None
+
     def signature(self, item, tag, step):
         """<env>/<feature>: <mechanism> for the mechanisms that are understood (each is a recorded finding, open or fixed);
         <env>/<preset>: <generic tag> otherwise"""
         from vt.envprops import CONCRETE
         base = CONCRETE.get(tag, "tag%d" % tag)
         try:
-            S = self.spec_data(item.td_in)
             acts = item.ep.actions
-            routes = self.split_routes(acts)
-            # on float data (generator stream) a constraint counts as violated only beyond the slack the harness grants
-            slack = 0 if self.is_exact(item.td_in) else 3 * Fraction(1e-5)
-            fl = [self.route_faults(S, r, slack) for r in routes]
-            faults = sorted({x for f, _ in fl for x in f})
-            tight = any(t for _, t in fl)
-            speed = float(item.td_in["speed"][0, 0])
-            has_tw = any(h is not None for h in S["hi"])
-            in_range = all(0 <= a < len(S["dl"]) for a in acts)
-            if tag == 16 and has_tw and tight:
-                return "mtvrp/TW: mask-hides-visit-arriving-exactly-at-deadline"            # fixed by /repo 9b8ead8
-            if tag == 14 and in_range and has_tw:
-                if S["open"] and not self.clock_ok(S, acts, True):
-                    return "mtvrp/O+TW: checker-enforces-depot-deadline-on-open-route"       # open
-                if speed != 1.0 and self.clock_ok(S, acts, True) and self.data_assert_ok(S, True) and not self.data_assert_ok(S, False):
-                    return "mtvrp/TW,speed!=1: checker-data-assert-ignores-speed"            # fixed by /repo 004c254
-                if speed != 1.0 and self.clock_ok(S, acts, True) and not self.clock_ok(S, acts, False):
-                    return "mtvrp/TW,speed!=1: checker-ignores-speed"                        # fixed by /repo ea27328
-            if tag == 15 and in_range:
-                unclosed = bool(acts) and acts[-1] != 0
-                slow_clock_ok = speed != 1.0 and self.clock_ok(S, acts, False)
-                mech, unexplained = set(), not faults
-                for k, (fr_, _) in enumerate(fl):
-                    for x in fr_:
-                        if x == "precedence":
-                            mech.add("prec")
-                        elif x in ("limit", "depot-window") and unclosed and k == len(fl) - 1:
-                            mech.add("ret")
-                        elif x in ("window", "depot-window") and slow_clock_ok:
-                            mech.add("speed")
-                        else:
-                            unexplained = True
-                if not unexplained:
-                    if "prec" in mech:
-                        return "mtvrp/B: checker-misses-linehaul-after-backhaul"             # open
-                    if "ret" in mech:
-                        return "mtvrp/L|TW: checker-skips-final-return-leg"                  # open
-                    if "speed" in mech:
-                        return "mtvrp/TW,speed!=1: checker-ignores-speed"                    # fixed by /repo ea27328
+            alone_rejected = True
+            if tag == 14 and str(item.batch).startswith("batch"):
+                # a row of a rejected batch: it explains the rejection only if the checker rejects it alone too (otherwise
+                # batch_signature looks at the rows that are rejected alone)
+                alone_rejected = envh.verdict(item.env, item.td_reset, torch.tensor([acts], dtype=torch.int64)) is False
+            if alone_rejected:
+                sig = self.classify(item.td_in, acts, tag, getattr(item.ep, "checker_msg", "") or "")
+                if sig:
+                    return sig
         except Exception:
             pass
         return "%s/%s: %s" % (self.name, self.variant_tag(item.variant), base)
+
+    def batch_signature(self, obj):
+        """a batch all of whose rows are feasible was rejected: classified by the rows the checker rejects ALONE, with the
+        same classifier as single rows; if it accepts every row alone the rejection depends on the batch itself"""
+        from vt.envprops import td_from_hex
+        alone = obj.get("row_alone_verdicts") or []
+        rej = [k for k, v in enumerate(alone) if not v]
+        if alone and not rej:
+            return "mtvrp/batch: checker-rejects-batch-whose-rows-it-accepts-alone"
+        for k in rej:
+            try:
+                sig = self.classify(td_from_hex(obj["batch_instances"][k]), [int(a) for a in obj["batch_actions"][k]], 14)
+            except Exception:
+                sig = None
+            if sig:
+                return sig
+        return None
+
+    def batched_checker(self, ctx, tier, rows, prefix="batched", cap=None):
+        orig = ctx.failure
+
+        def failure(sig, obj, tag=""):
+            if obj.get("batch_composition") and int(obj.get("code", 0)) % 1000 == 14 and obj.get("batch_verdict") is False:
+                sig = self.batch_signature(obj) or sig
+                obj = dict(obj, signature_from="rows rejected alone: %s" % [k for k, v in enumerate(obj.get("row_alone_verdicts") or []) if not v])
+            return orig(sig, obj, tag=tag)
+        ctx.failure = failure
+        try:
+            return super().batched_checker(ctx, tier, rows, prefix=prefix, cap=cap)
+        finally:
+            ctx.failure = orig
 
     # ---------------------------------------------------------------- hand-built witnesses (DESIGN section 8 + C06 deviations)
     @staticmethod
